@@ -951,6 +951,10 @@ var purePkgs = []string{"strconv.", "strings.", "github.com/satori/go.uuid.", "(
 // pureExternal: library functions that are deterministic functions of their arguments (no chain state, no clock) are
 // modelled as uninterpreted functions: same arguments, same results; nothing else is assumed about them.
 func (e *Enc) pureExternal(x ssa.Value, cc *callCtx) bool {
+	if isNondetCallee(cc.name) {
+		// not a function of its arguments (random / clock based): never modelled as one
+		return false
+	}
 	ok := false
 	for _, p := range purePkgs {
 		if strings.HasPrefix(cc.name, p) {
